@@ -51,7 +51,16 @@ func setup4(args ...string) (handler.Handler4, error) {
 }
 
 func Handler4(req, resp *dhcpv4.DHCPv4) (*dhcpv4.DHCPv4, bool) {
-	v6pref := req.IsOptionRequested(dhcpv4.OptionIPv6OnlyPreferred)
+	// RFC 8925: only clients that explicitly list the option in their parameter
+	// request list are IPv6-only capable. IsOptionRequested() is not usable here
+	// because it reports every option as requested when the list is absent.
+	v6pref := false
+	for _, o := range req.ParameterRequestList() {
+		if o.Code() == dhcpv4.OptionIPv6OnlyPreferred.Code() {
+			v6pref = true
+			break
+		}
+	}
 	log.WithFields(logrus.Fields{
 		"mac":      req.ClientHWAddr.String(),
 		"ipv6only": v6pref,
